@@ -30,6 +30,8 @@ CHECKS = {
     "C15": ("GLUE", MC, "Instance A after an arbitrary history of H calls vs. a fresh instance B with the same options, chunk setting and offset: same return value, final offset and bytes for the final call; failed calls leave earlier bytes intact.", GLUE_NOTE, GLUE_TECH, "5/C15"),
     "C16": ("TOK+ENC", MC, "Relational queries: two spellings of a line (case flips, inserted blanks, trailing comment / CRLF, label/section/global lines) hand the same string to the tokenizer; the same symbolic value in hexadecimal, decimal and with leading zeros gives identical bytes on two instances.", TOK_NOTE + " " + ENC_NOTE, "CBMC relational queries on the real filter/str_to_instr and on the whole pipeline, SAT", "5/C16"),
     "C17": ("GLUE+OS", MC, "Fault schedule symbolic: each kind of OS call may fail at its 1st..4th occurrence, all kinds independently, in four scenarios (managed create/grow/destroy, caller buffer, file assembly, binary output): no CBMC memory-safety failure, documented return values, live mapping still reported, instance destroyable.", OS_NOTE, GLUE_TECH + "; OS model with symbolic fault schedule", "5/C17"),
+    "C18": ("SHARED", "other", "Reduced scope: the schedule quantifier is NOT explored (no installed tool can: CBMC aborts on pthread harnesses over this code). Decided sequentially by CBMC: the index build is deterministic, idempotent, stores each entry once (S2, S3); every lookup gives the same answer whether its index entry is 0 or built (S4). Audited on the LLVM IR: the only mutable static objects are the two index arrays, all accesses to them are atomic, no non-re-entrant libc call (S1, S5). Race freedom follows by an argument on C11 atomics, which is not a solver verdict.", "The final implication (S1-S5 => per-thread results equal single-threaded ones) is argued, not decided; races inside libc are not covered.", "CBMC sequential queries on the shared lookup state + LLVM IR audit (schedules not explored)", "5/C18"),
+    "C20": ("CLI", "other", "Reduced scope: the real tools/asmline.c with the asm_* API replaced by a recording model and getopt_long by a contract stub: for every sequence of up to N options and FILE/stdin source, option calls, entry-point selection, -c/-b/-P/-o handling, printed count and exit status are as documented. -r, getopt's string matching and byte-level output equality are outside (the latter is C19/C06 on the library side).", "Recording model of the library API; contract stubs for getopt_long/getline/printf/exit/atoi/strchr/snprintf.", "CBMC bounded symbolic execution of tools/asmline.c with recording API model and getopt contract stub", "5/C20"),
     "C19": ("GLUE+OS", MC, "File model with symbolic size 0..3 model pages and arbitrary contents: the text handed to the in-memory entry point is the file's contents, NUL-terminated inside the mapping; results passed through; missing file fails; binary output writes exactly [0, offset).", OS_NOTE, GLUE_TECH + "; OS model", "5/C19"),
 }
 
@@ -62,6 +64,8 @@ def main():
         "engines": [
             {"name": "ENC", "path": "vflib/enc.py", "serves_properties": ["C01", "C02", "C03", "C04", "C05", "C09", "C10", "C11", "C16"], "kind_free_text": "CBMC on the whole real pipeline per text skeleton, symbolic registers/numbers/options"},
             {"name": "GLUE", "path": "vflib/glue.py", "serves_properties": ["C06", "C07", "C08", "C10", "C12", "C13", "C14", "C15", "C17", "C19"], "kind_free_text": "CBMC on the real API layer with abstract lines; OS model for C08/C17/C19"},
+            {"name": "CLI", "path": "vflib/cli.py", "serves_properties": ["C20"], "kind_free_text": "CBMC on tools/asmline.c with recording API model"},
+            {"name": "SHARED", "path": "checks/c18.py", "serves_properties": ["C18"], "kind_free_text": "CBMC sequential queries on the index tables + LLVM IR audit"},
             {"name": "TOK", "path": "vflib/tok.py", "serves_properties": ["C09", "C10", "C16"], "kind_free_text": "CBMC on each text-layer unit with arbitrary bounded strings"},
         ],
         "checks": checks,
@@ -72,6 +76,6 @@ def main():
         json.dump(m, f, indent=1)
         f.write("\n")
 
-NA = {"C18": "check under construction in this revision (sequential reduction S1-S5, see DESIGN.md 5/C18)", "C20": "check under construction in this revision (CLI engine, see DESIGN.md 5/C20)"}
+NA = {}
 if __name__ == "__main__":
     main()
